@@ -432,17 +432,21 @@ def run_corpus(case):
     return r
 
 
+# message characters: letters, digits and the characters that are special inside Verilog string literals and formats
+MSG_ALPHABET = 'AbZ09!x "\\%\n\t~{}'
+
+
 def corpus_cases(max_len):
     from . import c16
     bit = st.sampled_from([0, 1, 1])
-    msg = st.tuples(st.text(alphabet='AbZ09!x', min_size=1, max_size=5), st.lists(bit.map(lambda b: [b]), min_size=2, max_size=max_len)).map(
+    msg = st.tuples(st.text(alphabet=MSG_ALPHABET, min_size=1, max_size=5), st.lists(bit.map(lambda b: [b]), min_size=2, max_size=max_len)).map(
         lambda t: {'kind': 'corpus', 'name': 'MsgSequencer', 'p': {'msg': t[0]}, 'inputs': t[1]})
     amem = st.tuples(st.integers(1, 3), st.integers(1, 8)).flatmap(lambda t: st.lists(
         st.tuples(value_st(t[0]), value_st(t[0]), st.integers(0, 1), value_st(t[1])).map(list), min_size=1, max_size=max_len).map(
         lambda h: {'kind': 'corpus', 'name': 'AsynchronousMemory', 'p': {'aw': t[0], 'w': t[1]}, 'inputs': h}))
     axi = st.sampled_from(['Axi2Reg', 'Reg2Axi']).flatmap(lambda b: c16._cfg(b).flatmap(
         lambda c: c16._hist(b, c, max_len).map(lambda h: {'kind': 'corpus', 'name': b, 'p': c, 'inputs': h})))
-    msg2 = st.tuples(st.text(alphabet='AbZ09!x', min_size=1, max_size=4), st.text(alphabet='AbZ09!x', min_size=1, max_size=4),
+    msg2 = st.tuples(st.text(alphabet=MSG_ALPHABET, min_size=1, max_size=4), st.text(alphabet=MSG_ALPHABET, min_size=1, max_size=4),
                      st.lists(st.tuples(bit, bit).map(list), min_size=2, max_size=max_len), st.booleans()).map(
         lambda t: {'kind': 'corpus', 'name': 'MsgSequencerPair',
                    'p': {'msg': [t[0], (t[1] + t[0])[:len(t[0])] if t[3] else t[1]]}, 'inputs': t[2]})
